@@ -43,6 +43,18 @@ Model/PFM.vos Model/PFM.vok Model/PFM.required_vos: Model/PFM.v Base/Result.vos 
 Model/Heap.vo Model/Heap.glob Model/Heap.v.beautified Model/Heap.required_vo: Model/Heap.v 
 Model/Heap.vio: Model/Heap.v 
 Model/Heap.vos Model/Heap.vok Model/Heap.required_vos: Model/Heap.v 
+Model/PyRt.vo Model/PyRt.glob Model/PyRt.v.beautified Model/PyRt.required_vo: Model/PyRt.v Base/Result.vo Base/Str.vo Base/AstOp.vo Base/PyFloat.vo Model/Ast.vo Model/FM.vo
+Model/PyRt.vio: Model/PyRt.v Base/Result.vio Base/Str.vio Base/AstOp.vio Base/PyFloat.vio Model/Ast.vio Model/FM.vio
+Model/PyRt.vos Model/PyRt.vok Model/PyRt.required_vos: Model/PyRt.v Base/Result.vos Base/Str.vos Base/AstOp.vos Base/PyFloat.vos Model/Ast.vos Model/FM.vos
+Model/Loc.vo Model/Loc.glob Model/Loc.v.beautified Model/Loc.required_vo: Model/Loc.v Base/Result.vo Base/Str.vo Base/AstOp.vo Model/Ast.vo Model/FM.vo Model/PyRt.vo
+Model/Loc.vio: Model/Loc.v Base/Result.vio Base/Str.vio Base/AstOp.vio Model/Ast.vio Model/FM.vio Model/PyRt.vio
+Model/Loc.vos Model/Loc.vok Model/Loc.required_vos: Model/Loc.v Base/Result.vos Base/Str.vos Base/AstOp.vos Model/Ast.vos Model/FM.vos Model/PyRt.vos
+Gen/Src_fm.vo Gen/Src_fm.glob Gen/Src_fm.v.beautified Gen/Src_fm.required_vo: Gen/Src_fm.v Base/Result.vo Base/Str.vo Base/AstOp.vo Gen/Tables_core.vo Model/Ast.vo Model/FM.vo Model/PyRt.vo
+Gen/Src_fm.vio: Gen/Src_fm.v Base/Result.vio Base/Str.vio Base/AstOp.vio Gen/Tables_core.vio Model/Ast.vio Model/FM.vio Model/PyRt.vio
+Gen/Src_fm.vos Gen/Src_fm.vok Gen/Src_fm.required_vos: Gen/Src_fm.v Base/Result.vos Base/Str.vos Base/AstOp.vos Gen/Tables_core.vos Model/Ast.vos Model/FM.vos Model/PyRt.vos
+Gen/Src_ops.vo Gen/Src_ops.glob Gen/Src_ops.v.beautified Gen/Src_ops.required_vo: Gen/Src_ops.v Base/Result.vo Base/Str.vo Base/AstOp.vo Gen/Tables_core.vo Model/Ast.vo Model/FM.vo Model/PyRt.vo Gen/Src_fm.vo
+Gen/Src_ops.vio: Gen/Src_ops.v Base/Result.vio Base/Str.vio Base/AstOp.vio Gen/Tables_core.vio Model/Ast.vio Model/FM.vio Model/PyRt.vio Gen/Src_fm.vio
+Gen/Src_ops.vos Gen/Src_ops.vok Gen/Src_ops.required_vos: Gen/Src_ops.v Base/Result.vos Base/Str.vos Base/AstOp.vos Gen/Tables_core.vos Model/Ast.vos Model/FM.vos Model/PyRt.vos Gen/Src_fm.vos
 Gen/Tables_json.vo Gen/Tables_json.glob Gen/Tables_json.v.beautified Gen/Tables_json.required_vo: Gen/Tables_json.v Base/AstOp.vo
 Gen/Tables_json.vio: Gen/Tables_json.v Base/AstOp.vio
 Gen/Tables_json.vos Gen/Tables_json.vok Gen/Tables_json.required_vos: Gen/Tables_json.v Base/AstOp.vos
@@ -55,6 +67,9 @@ Gen/Tables_fide.vos Gen/Tables_fide.vok Gen/Tables_fide.required_vos: Gen/Tables
 Format/Json.vo Format/Json.glob Format/Json.v.beautified Format/Json.required_vo: Format/Json.v Base/Result.vo Base/Str.vo Base/AstOp.vo Model/Ast.vo Model/FM.vo Model/PFM.vo Model/Queries.vo Gen/Tables_json.vo
 Format/Json.vio: Format/Json.v Base/Result.vio Base/Str.vio Base/AstOp.vio Model/Ast.vio Model/FM.vio Model/PFM.vio Model/Queries.vio Gen/Tables_json.vio
 Format/Json.vos Format/Json.vok Format/Json.required_vos: Format/Json.v Base/Result.vos Base/Str.vos Base/AstOp.vos Model/Ast.vos Model/FM.vos Model/PFM.vos Model/Queries.vos Gen/Tables_json.vos
+Gen/Src_json.vo Gen/Src_json.glob Gen/Src_json.v.beautified Gen/Src_json.required_vo: Gen/Src_json.v Base/Result.vo Base/Str.vo Base/AstOp.vo Gen/Tables_core.vo Model/Ast.vo Model/FM.vo Model/PyRt.vo Gen/Src_fm.vo
+Gen/Src_json.vio: Gen/Src_json.v Base/Result.vio Base/Str.vio Base/AstOp.vio Gen/Tables_core.vio Model/Ast.vio Model/FM.vio Model/PyRt.vio Gen/Src_fm.vio
+Gen/Src_json.vos Gen/Src_json.vok Gen/Src_json.required_vos: Gen/Src_json.v Base/Result.vos Base/Str.vos Base/AstOp.vos Gen/Tables_core.vos Model/Ast.vos Model/FM.vos Model/PyRt.vos Gen/Src_fm.vos
 Format/Glencoe.vo Format/Glencoe.glob Format/Glencoe.v.beautified Format/Glencoe.required_vo: Format/Glencoe.v Base/Result.vo Base/Str.vo Base/AstOp.vo Model/Ast.vo Model/FM.vo Model/PFM.vo Model/Queries.vo Model/EqHash.vo Format/Json.vo Gen/Tables_glencoe.vo
 Format/Glencoe.vio: Format/Glencoe.v Base/Result.vio Base/Str.vio Base/AstOp.vio Model/Ast.vio Model/FM.vio Model/PFM.vio Model/Queries.vio Model/EqHash.vio Format/Json.vio Gen/Tables_glencoe.vio
 Format/Glencoe.vos Format/Glencoe.vok Format/Glencoe.required_vos: Format/Glencoe.v Base/Result.vos Base/Str.vos Base/AstOp.vos Model/Ast.vos Model/FM.vos Model/PFM.vos Model/Queries.vos Model/EqHash.vos Format/Json.vos Gen/Tables_glencoe.vos
